@@ -3,6 +3,7 @@
 -/
 import Asn1.Generated
 import Proofs.Parse
+import Proofs.Codec
 
 namespace Asn1.C02
 
@@ -31,5 +32,64 @@ theorem canonical_modes :
     Generated.derEncMissingTypeIds = [] ∧ Generated.cerEncMissingTypeIds = [] ∧
     Generated.berEncMissingTypeIds = [] := by
   decide
+
+
+/-- the DER encoder tables lie in the region of the proof under the DER profile (FF for TRUE, no
+    segmented strings), the CER tables under the CER profile (FF for TRUE, segments allowed) -/
+theorem der_region (o : EncOpts) : EncRegion Generated.derEnc derProfile (Generated.derEnc.fixedChunk.getD o.maxChunk) :=
+  { boolT := by decide, chunk := Or.inl rfl, setOmit := Or.inr rfl }
+
+theorem cer_region (o : EncOpts) : EncRegion Generated.cerEnc cerProfile (Generated.cerEnc.fixedChunk.getD o.maxChunk) :=
+  { boolT := by decide, chunk := Or.inr rfl, setOmit := Or.inr rfl }
+
+theorem der_profile_all_decoders :
+    Compat derProfile Generated.derDecByType ∧ Compat derProfile Generated.cerDecByType ∧
+    Compat derProfile Generated.berDecByType :=
+  ⟨⟨fun h => (by cases h), fun h => (by cases h)⟩, ⟨fun h => (by cases h), fun h => (by cases h)⟩,
+   ⟨fun h => (by cases h), fun h => (by cases h)⟩⟩
+
+theorem cer_profile_cer_ber :
+    Compat cerProfile Generated.cerDecByType ∧ Compat cerProfile Generated.berDecByType :=
+  ⟨⟨fun h => (by cases h), fun _ => ⟨rfl, by decide⟩⟩, ⟨fun h => (by cases h), fun _ => ⟨rfl, by decide⟩⟩⟩
+
+/-- **DER round trip under the DER, CER and BER decoders** (types without ANY/REAL; values to which
+    finding E3 — a present OPTIONAL member with empty contents is left out — does not apply).
+    The DER encoding of a value, followed by anything, decodes under each of the three decoders to
+    the value (SET OF compared as a multiset: DER sorts it) and leaves exactly what followed. -/
+theorem der_roundtrip_partial (o : EncOpts) (hi : o.ifNotEmpty = false) (t : Ty) (v : Val) (b tail : Bytes)
+    (hreg : t.reg Generated.derEnc true = true) (hwf : t.WF = true) (hty : HasType t v = true)
+    (hn : noE3 true t v = true) (h : encItem Generated.derEnc o t v = .ok b) :
+    (∃ w, decodeOne Generated.derDecByType t (b ++ tail) = .ok (w, tail) ∧ VEq t v w) ∧
+    (∃ w, decodeOne Generated.cerDecByType t (b ++ tail) = .ok (w, tail) ∧ VEq t v w) ∧
+    (∃ w, decodeOne Generated.berDecByType t (b ++ tail) = .ok (w, tail) ∧ VEq t v w) :=
+  ⟨codec_roundtrip Generated.derEnc Generated.derDecByType derProfile o hi (der_region o)
+      der_profile_all_decoders.1 (Or.inl rfl) t v b tail hreg hwf hty hn h,
+   codec_roundtrip Generated.derEnc Generated.cerDecByType derProfile o hi (der_region o)
+      der_profile_all_decoders.2.1 (Or.inl rfl) t v b tail hreg hwf hty hn h,
+   codec_roundtrip Generated.derEnc Generated.berDecByType derProfile o hi (der_region o)
+      der_profile_all_decoders.2.2 (Or.inl rfl) t v b tail hreg hwf hty hn h⟩
+
+/-- **CER round trip under the CER and BER decoders** (same region; in CER's indefinite mode the
+    region also excludes an explicit tag over BOOLEAN/INTEGER/ENUMERATED/NULL/OBJECT IDENTIFIER —
+    finding E1).  Strings longer than 1000 octets are written in 1000-octet segments and read back. -/
+theorem cer_roundtrip_partial (o : EncOpts) (hi : o.ifNotEmpty = false) (t : Ty) (v : Val) (b tail : Bytes)
+    (hreg : t.reg Generated.cerEnc false = true) (hwf : t.WF = true) (hty : HasType t v = true)
+    (hn : noE3 true t v = true) (h : encItem Generated.cerEnc o t v = .ok b) :
+    (∃ w, decodeOne Generated.cerDecByType t (b ++ tail) = .ok (w, tail) ∧ VEq t v w) ∧
+    (∃ w, decodeOne Generated.berDecByType t (b ++ tail) = .ok (w, tail) ∧ VEq t v w) :=
+  ⟨codec_roundtrip Generated.cerEnc Generated.cerDecByType cerProfile o hi (cer_region o)
+      cer_profile_cer_ber.1 (Or.inr rfl) t v b tail hreg hwf hty hn h,
+   codec_roundtrip Generated.cerEnc Generated.berDecByType cerProfile o hi (cer_region o)
+      cer_profile_cer_ber.2 (Or.inr rfl) t v b tail hreg hwf hty hn h⟩
+
+/-- the hypotheses are met by a record with an explicitly tagged member, a DEFAULT member equal to
+    its default (left out by DER) and a SET OF -/
+example :
+    let t : Ty := .seq (.cons .req (.tagged true .context 5 (.prim .boolean))
+      (.cons (.dflt (.int 7)) (.prim .integer) (.cons .req (.setOf (.prim (.str 4))) .nil)))
+    let v : Val := .seq [.bool true, .int 7, .seqOf [.str [9, 9]]]
+    t.reg Generated.derEnc true = true ∧ t.WF = true ∧ HasType t v = true ∧ noE3 true t v = true ∧
+      (encItem Generated.derEnc {} t v).toOption.isSome = true := by
+  decide +kernel
 
 end Asn1.C02
